@@ -6,7 +6,8 @@ set -euo pipefail
 FLAVOUR="${1:-plain}"
 REPO="${SP_REPO:-/repo}"
 VERIF="$(cd "$(dirname "$0")/.." && pwd)"
-HASH=$( (cd "$REPO" && find src include -type f \( -name '*.cpp' -o -name '*.h' \) -print0 | sort -z | xargs -0 sha256sum) | sha256sum | cut -c1-16)
+# (the tree's location is part of the key: the recorded compiler flags name its include directories)
+HASH=$( (echo "$REPO"; cd "$REPO" && find src include -type f \( -name '*.cpp' -o -name '*.h' \) -print0 | sort -z | xargs -0 sha256sum) | sha256sum | cut -c1-16)
 OUT="$VERIF/.build/$FLAVOUR-$HASH"
 COMMON="-std=c++17 -I$REPO/include -I$REPO/src -DSOCKPUPPET_VERIF -fno-omit-frame-pointer"
 case "$FLAVOUR" in
